@@ -272,8 +272,8 @@ type LState struct {
 
 // StepResult is everything observable about one block step.
 type StepResult struct {
-	Pre, AfterBegin, Post *Snap
-	AfterTx               *Snap // after the execution-block requests, before EndBlocker (when the monitor asks for mid-block snapshots)
+	Pre, AfterBegin, Post   *Snap
+	AfterTx                 *Snap // after the execution-block requests, before EndBlocker (when the monitor asks for mid-block snapshots)
 	BeginErr, TxErr, EndErr error
 	ValSetErr               error
 	Truncated               bool // validator set would become empty (environment assumption)
